@@ -276,8 +276,17 @@ def _formulas_writer(ctx, prog, rule):
         base = strip(data[0])
         lo = strip_casts(data[2]) if data[2] else None
         desc = "%s[%s..]" % (tree_str(base), tree_str(lo) if lo else "")
-        zeros = base[0] == "agg" and base[1][0] == "array" and len(base[2]) == 4 and all(const_val(x) == 0 for x in base[2]) or (base[0] == "repeat" and const_val(base[1]) == 0 and base[2].strip().startswith("4"))
+        zeros = base[0] == "agg" and base[1][0] == "array" and len(base[2]) == 4 and all(const_val(x) == 0 for x in base[2]) or (base[0] == "repeat" and const_val(base[1]) == 0 and base[2].strip().startswith("4")) \
+            or (base[0] == "const" and isinstance(base[2], tuple) and tuple(base[2]) == (0, 0, 0, 0))
         rem = lo is not None and lo[0] == "binop" and lo[1] == "Rem" and is_self_field(lo[2], "offset") and const_val(lo[3]) == 4
+        if not rem and data[1] == "to" and data[3] is not None:
+            # the same number of zeros taken from the front: zeros[..4 - offset % 4]
+            hi = strip_casts(data[3])
+            if hi[0] == "binop" and hi[1] == "Sub" and const_val(hi[2]) == 4:
+                r_ = strip_casts(hi[3])
+                if r_[0] == "binop" and r_[1] == "Rem" and is_self_field(r_[2], "offset") and const_val(r_[3]) == 4:
+                    rem, lo = True, r_
+                    data = (data[0], "from", lo, None)
         # guarded by rem != 0
         guard = False
         for b2 in a.cfg():
@@ -287,6 +296,8 @@ def _formulas_writer(ctx, prog, rule):
                 d = strip(Ra.place(dl)) if dl else None
                 if d and d[0] == "binop" and d[1] in ("Ne", "Eq", "Gt") and const_val(d[3]) == 0 and strip_casts(d[2]) == lo:
                     guard = a.dominates(b2, bi)
+                if d is not None and strip_casts(d) == lo:
+                    guard = guard or a.dominates(b2, bi)        # match offset % 4 { 0 => .., m => .. }
         okw = bool(zeros) and rem and guard and data[1] == "from" and strip(Ra.operand(t["args"][0])) == ("param", 1)
     ctx.ob(rule, "formula/PagedWriter::align", okw, "align writes %s through write_all on self when offset %% 4 != 0 (4 - offset %% 4 zero bytes)" % desc)
     offs = field_assignments(a, "paged_writer::PagedWriter", "offset")
@@ -325,6 +336,8 @@ def _formulas_reader(ctx, prog, rule):
                     rej = e["otherwise"] if d[1] in ("Ge", "Gt") else e.get("0")
                     guard = bi not in reach(g.cfg(), [rej]) and g.dominates(b2, bi)
         ok = ok and guard
+        # every successful return has repositioned the cursor: no shortcut that keeps the old one
+        ok = ok and g.ok_reachable(removed=[bi]) is None
     ctx.ob(rule, "formula/PagedReader::seek_physical", ok, "offset <- %s (must be pos - (pos / page_size) * 4, assigned only when pos < phy_file_size, with no dependence on the old cursor)" % desc)
     r = prog.fn("paged_reader::PagedReader::<T>::align")
     ctx.fn_seen(r)
@@ -375,8 +388,13 @@ def read_current_page_shape(ctx, prog, rule):
     one = Program({"crate": prog.crate, "fns": [f.d], "adts": []})
     io_rules.raw_transfer_discipline(ctx, one, rule, floors=False)
     S = Steps(ctx, f, rule)
-    S.step("zero-fill", calls_where(f, lambda c, t, R: c.endswith("::fill") and const_val(R.operand(t["args"][1])) == 0))
-    S.must_pass("zero-fill")
+    zf = S.step("zero-fill", calls_where(f, lambda c, t, R: c.endswith("::fill") and const_val(R.operand(t["args"][1])) == 0))
+    # when the device reports end of file (count 0) the rest of the page is zero-filled; a completely filled page needs none
+    eof_edges = []
+    for bi, t in f.calls(lambda c, t: io_rules._is_raw_transfer(c)):
+        eof_edges += io_rules.short_transfer_loop(f, bi)["zero_succs"]
+    ok_fill = bool(zf) and bool(eof_edges) and all(f.ok_reachable(removed=zf, start=[e_]) is None for e_ in eof_edges)
+    ctx.ob(rule, "on-every-ok-path/%s/zero-fill" % short(f.path), ok_fill, "after the device reported end of file every successful path zero-fills the rest of the page buffer", where=f.file_line(zf[0]) if zf else None)
     R = Resolver(f)
     # the loop starts from the whole page buffer: the destination of the raw read is (a suffix of) page_buffer[..]
     ok = False
